@@ -489,6 +489,7 @@ func (sm *shardManagerImpl) retryJoinCluster() {
 func (sm *shardManagerImpl) RegisterShard(clientShardID history.ClusterShardID) time.Time {
 	sm.logger.Info("RegisterShard", tag.NewStringTag("shard", ClusterShardIDtoString(clientShardID)))
 	registeredAt := sm.addLocalShard(clientShardID)
+	vfYield("register.window")
 	sm.broadcastShardChange("register", clientShardID)
 
 	// Trigger memberlist metadata update to propagate NodeMeta to other nodes
